@@ -252,6 +252,13 @@ func (m *model) step(op Op) {
 		m.e.Execs = append(m.e.Execs, n)
 		m.e.Files[fmt.Sprintf("ran%d", n)] = ""
 		m.printf("s%d 3\n", n)
+	case KSystemNone:
+		if m.fl.NoExec {
+			m.forbid("NoExec", op.K, n)
+		}
+		m.allowed(op.K)
+		m.e.Execs = append(m.e.Execs, n)
+		m.printf("s%d 0\n", n)
 	case KGetline, KGetlineV:
 		rec, ok := m.nextRecord(op.K, n)
 		ret := 0
@@ -345,6 +352,10 @@ func Expect(c *Case, fl Flags, d string, devAllow bool) (exp *Expectation) {
 		operands: append([]string{}, c.Operands...)}
 	m.e = &Expectation{Files: map[string]string{}, Written: map[string]bool{}}
 	for k, v := range c.Files {
+		if v == DirMarker {
+			m.e.Files[k+"/"] = "" // a directory of the sandbox (listed with a trailing slash in snapshots)
+			continue
+		}
 		m.e.Files[k] = v
 	}
 	exp = m.e
